@@ -269,14 +269,14 @@ def jsonable(v):
     return v
 
 
-def run_config(cfg: dict, root: Path, tag: str) -> dict:
-    """Execute one configuration; everything returned is JSON-able (so a fresh interpreter can be compared)."""
+def run_config(cfg: dict, root: Path, tag: str, twice: bool = False) -> dict:
+    """Execute one configuration; everything returned is JSON-able (so a fresh interpreter can be compared).
+    `twice`: execute the SAME configured Execution object a second time (result under key "second")."""
     import numpy as np
     with quiet(), dependency_patch(cfg.get("patch_dep", False)):
         exe, inst, aux = build(cfg)
         lf = log_path(root, tag, cfg, exe, inst)
         exe.set_max_fes(int(cfg["budget"]), True).set_rand_seed(int(cfg["seed"])).set_log_file(str(lf))
-        res: dict = {"err": None, "log": str(lf), "algo": str(exe._algorithm)}
         # every evaluation the run hands to its objective, in order (the process binds `objective.evaluate` when it is
         # created, so an instance attribute is what it calls): two runs with the same seed are the same SEQUENCE, and
         # where they are not, some shorter budget separates their results (see `prefix_budget`)
@@ -285,46 +285,58 @@ def run_config(cfg: dict, root: Path, tag: str) -> dict:
         if cfg["kind"] != "ttpmo" and hasattr(obj, "evaluate"):
             orig_eval = obj.evaluate
 
-            def recording(x, _o=orig_eval, _s=seq):
+            def recording(x, _o=orig_eval):
                 f = _o(x)
-                _s.append([jsonable(np.array(x, copy=True)) if isinstance(x, np.ndarray) else repr(x)[:2000], jsonable(f)])
+                seq.append([jsonable(np.array(x, copy=True)) if isinstance(x, np.ndarray) else repr(x)[:2000], jsonable(f)])
                 return f
             try:
                 obj.evaluate = recording
             except AttributeError:
                 pass
-        res["seq"] = seq
-        try:
-            with time_limit(cfg.get("time_limit", 0)), exe.execute() as p:
-                res["has_best"] = bool(p.has_best())
-                if res["has_best"]:
-                    res["f"] = jsonable(p.get_best_f())
-                    res["fes"] = int(p.get_consumed_fes())
-                    res["li"] = int(p.get_last_improvement_fe())
-                    res["max_fes"] = p.get_max_fes()
-                    x = p.create()
-                    p.get_copy_of_best_x(x)
-                    res["x"] = jsonable(x)
-                    ss = exe._solution_space
-                    y = ss.create()
-                    p.get_copy_of_best_y(y)
-                    if cfg["kind"] == "instgen":
-                        res["y"] = ss.to_str(y)
-                    else:
-                        res["y"] = jsonable(np.asarray(y))
-                    if cfg["kind"] == "bp":
-                        res["nbins"] = jsonable(y.n_bins)
-                    if cfg["kind"] == "ttpmo":
-                        fs = exe._objective.f_create()
-                        p.get_copy_of_best_fs(fs)
-                        res["fs"] = jsonable(fs)
-                        res["weights"] = [jsonable(w) for w in (exe._objective.weights or ())]
-                        res["archive"] = sorted([jsonable(r.x), jsonable(r.fs)] for r in p.get_archive())
-        except RunTimeout:
-            res["err"] = res["timeout"] = f"time limit of {cfg.get('time_limit')} s of the harness exceeded"
-        except Exception as e:  # noqa: BLE001 - a run that raises is a finding, not an internal error
-            res["err"] = f"{type(e).__name__}: {e}"
-            res["err_frames"] = " ".join(f"{os.path.basename(fr.filename)}:{fr.name}" for fr in traceback.extract_tb(e.__traceback__))
+        res = _execute_once(cfg, exe, lf, np)
+        res["seq"] = list(seq)
+        if twice and res["err"] is None:
+            del seq[:]
+            lf2 = log_path(root, tag + "_again", cfg, exe, inst)    # its own directory tree (log readers walk whole trees)
+            exe.set_log_file(str(lf2))
+            res["second"] = _execute_once(cfg, exe, lf2, np)
+            res["second"]["seq"] = list(seq)
+    return res
+
+
+def _execute_once(cfg: dict, exe, lf, np) -> dict:
+    res: dict = {"err": None, "log": str(lf), "algo": str(exe._algorithm)}
+    try:
+        with time_limit(cfg.get("time_limit", 0)), exe.execute() as p:
+            res["has_best"] = bool(p.has_best())
+            if res["has_best"]:
+                res["f"] = jsonable(p.get_best_f())
+                res["fes"] = int(p.get_consumed_fes())
+                res["li"] = int(p.get_last_improvement_fe())
+                res["max_fes"] = p.get_max_fes()
+                x = p.create()
+                p.get_copy_of_best_x(x)
+                res["x"] = jsonable(x)
+                ss = exe._solution_space
+                y = ss.create()
+                p.get_copy_of_best_y(y)
+                if cfg["kind"] == "instgen":
+                    res["y"] = ss.to_str(y)
+                else:
+                    res["y"] = jsonable(np.asarray(y))
+                if cfg["kind"] == "bp":
+                    res["nbins"] = jsonable(y.n_bins)
+                if cfg["kind"] == "ttpmo":
+                    fs = exe._objective.f_create()
+                    p.get_copy_of_best_fs(fs)
+                    res["fs"] = jsonable(fs)
+                    res["weights"] = [jsonable(w) for w in (exe._objective.weights or ())]
+                    res["archive"] = sorted([jsonable(r.x), jsonable(r.fs)] for r in p.get_archive())
+    except RunTimeout:
+        res["err"] = res["timeout"] = f"time limit of {cfg.get('time_limit')} s of the harness exceeded"
+    except Exception as e:  # noqa: BLE001 - a run that raises is a finding, not an internal error
+        res["err"] = f"{type(e).__name__}: {e}"
+        res["err_frames"] = " ".join(f"{os.path.basename(fr.filename)}:{fr.name}" for fr in traceback.extract_tb(e.__traceback__))
     return res
 
 
@@ -513,6 +525,20 @@ def sample_configs(ck: Check) -> list[dict]:
             if patched:
                 c["patch_dep"] = True
             add(c)
+    # the SAME configured setup executed twice (a user repeats a run by calling execute() again): one configuration of every
+    # kind, plus surrogate setups whose inner budgets are large enough for stale state of the first run to matter
+    # (found missing by seeded change C12-surrogate-initialize-stays-disabled)
+    have = set()
+    for c in cfgs:
+        if c["kind"] not in have and not (c["kind"] == "ctrl_sur" and not c.get("patch_dep")):
+            have.add(c["kind"])
+            c["same_exe"] = True
+    # (thorough tier only: one such configuration costs minutes - model training with 256 FEs)
+    for sysd in ([] if q else [sl, sl2]):
+        sd = 2 if sysd["system"] == "stuart_landau" else 3
+        add({"kind": "ctrl_sur", "setup": "cmaes_surrogate", **sysd, "ctrl_layers": [sd, sd], "model_layers": [sd, sd, sd],
+             "warmup": 2, "training": 256, "model_run": 32, "seed": seed(), "budget": 3, "time_limit": 900,
+             "patch_dep": True, "same_exe": True})
     return cfgs
 
 
@@ -635,7 +661,7 @@ def streams(ck: Check) -> None:
     runs: list[tuple[dict, dict, dict, object]] = []
     for cfg in cfgs:
         t0 = time.time()
-        a = run_config(cfg, root, "A")
+        a = run_config(cfg, root, "A", twice=bool(cfg.get("same_exe")))
         if a.get("timeout"):    # one replacement with another seed; a run beyond the harness time limit yields no verdict
             ck.count(f"reseeded_after_harness_time_limit:{cfg['kind']}")
             ck.notes.append(f"harness time limit hit, configuration re-drawn with another seed: {json.dumps(cfg)}")
@@ -689,6 +715,11 @@ def streams(ck: Check) -> None:
                 break
         diff = differences(a, b)
         ck.spec(not diff, key_rep, f"{kind}/{cfg.get('setup', 'cmaes')}: two runs with the same seed differ: " + "; ".join(diff)[:400], case)
+        if a.get("second") is not None:
+            ck.count(f"same_setup_executed_twice:{kind}")
+            d3 = differences(a, a["second"])
+            ck.spec(not d3, key_rep, f"{kind}/{cfg.get('setup', 'cmaes')}: executing the SAME configured setup a second time "
+                    f"(same seed) gives another result: " + "; ".join(d3)[:400], case)
         if not diff and a["err"] is None and a.get("seq") != b.get("seq"):
             # same final result, but the two runs did not evaluate the same candidates: find the budget at which the
             # best-so-far of the two sequences differs and RUN that budget twice - only real runs are a verdict
